@@ -327,6 +327,17 @@ func genC19(o *Out, rng *rand.Rand, tier string) {
 				a, b := rng.Intn(len(l.Labels)), rng.Intn(len(l.Labels))
 				l.Labels[a], l.Labels[b] = l.Labels[b], l.Labels[a]
 				st = map[string]any{"k": "swap", "i": a + 1, "j": b + 1, "name": []int{}}
+			case op == 3 && rng.Intn(3) == 0:
+				// the same object decodes again: the bytes it was built from, or another name list - what it held is gone
+				again := in
+				if rng.Intn(2) == 0 {
+					again = (&rfc1035label.Labels{Labels: randNames(rng)}).ToBytes()
+				}
+				if err := l.FromBytes(append([]byte(nil), again...)); err == nil {
+					st = map[string]any{"k": "reparse", "i": 0, "name": B(again), "got": namesJSON(l.Labels)}
+				} else {
+					st = map[string]any{"k": "badparse", "i": 0, "name": B(again)}
+				}
 			case op == 3 && rng.Intn(2) == 0:
 				// a parse that fails leaves the object as it was
 				bad := [][]byte{{63}, {5, 'a'}, {0xc0}, {2, 'x', 'y', 0xc0, 3, 0xc0, 3}}[rng.Intn(4)]
